@@ -240,7 +240,7 @@ func c08Options(c *Ctx, prog *load.Program) {
 	}
 	sr, ss, sv := sym.Sym(sym.Fn, "sig_r"), sym.Sym(sym.Fn, "sig_s"), sym.Sym(sym.Int, "sig_v")
 	signOK := FTerm(sym.Sym(sym.Bool, "sign_ok"))
-	selfOK := fAnd(FTerm(sym.App(sym.Bool, "self_verify_ok", symBytes("h"), sr, ss)), FTerm(sym.Eq(absint.IntOp("and", 8, sv, sym.ConstI(3)), sv)))
+	selfOK := fAnd(FTerm(sym.App(sym.Bool, "self_verify_ok", symBytes("h"), sr, ss)), FTerm(absint.EqInt(absint.IntOp("and", 8, sv, sym.ConstI(3)), sv)))
 	selfVerify := sym.Sym(sym.Bool, "*opts.SelfVerify")
 	builders := map[int64]*sym.Term{0: sym.App(sym.Bytes, "asn1_build", sr, ss), 1: sym.App(sym.Bytes, "compact_build", sr, ss), 2: sym.App(sym.Bytes, "recoverable_build", sr, ss, sv)}
 	var assume *Formula
